@@ -384,7 +384,10 @@ var kindSQL = map[string][]string{
 		"SELECT a FROM (SELECT a FROM s) x JOIN (SELECT b FROM w) y ON x.a = y.b UNION SELECT c FROM (SELECT c FROM v) z"},
 	"insert": {"INSERT INTO t (a, b) VALUES (1, 'x'), (2, 'y')", "UPDATE t SET a = 1, b = a + 2 WHERE c = 3"},
 	"tuple": {"SELECT a FROM t WHERE (a, b) IN ((1, 2), (3, 4))", "SELECT ARRAY[1, 2, 3], (x, y) FROM t",
-		"SELECT readings[bounds[1]:bounds[2]], grid[1][2], ARRAY[a[1], b[2:3]] FROM t WHERE ((a, b), c) IN (((1, 2), 3))"},
+		"SELECT readings[bounds[1]:bounds[2]], grid[1][2], ARRAY[a[1], b[2:3]] FROM t WHERE ((a, b), c) IN (((1, 2), 3))",
+		// parenthesised lists that are not tuples in the tree (grouping sets, ROLLUP, CUBE) next to row values that are
+		"SELECT a, b, c FROM t GROUP BY GROUPING SETS ((a, b), (a, c), (a), ()), ROLLUP (b, c), CUBE (a, c)",
+		"SELECT a FROM t WHERE (p, q) = (7, 8) AND (r, s, u) IN ((1, 2, 3))"},
 }
 var failSQL = map[string]string{"select": "SELECT a FROM t WHERE (a, b) IN ((1, 2), (3, ", "insert": "INSERT INTO t (a) VALUES (1, (2, 3", "tuple": "SELECT ARRAY[1, (2, 3), FROM"}
 
